@@ -434,12 +434,26 @@ func genAdminGate() string {
 							calls = append(calls, "host")
 						case strings.HasSuffix(t, "checkOrigin"):
 							calls = append(calls, "origin")
-						case t == "strings.Contains" && strings.Contains(exprText(ce), "Upgrade"):
-							calls = append(calls, "websocket")
 						}
 					}
 					return true
 				})
+				// the websocket gate: a condition that looks at the Upgrade header for "websocket"
+				hasUpgrade, hasWS := false, false
+				ast.Inspect(s.Cond, func(x ast.Node) bool {
+					if bl, ok := x.(*ast.BasicLit); ok && bl.Kind == token.STRING {
+						if strings.Contains(bl.Value, "Upgrade") {
+							hasUpgrade = true
+						}
+						if strings.Contains(strings.ToLower(bl.Value), "websocket") {
+							hasWS = true
+						}
+					}
+					return true
+				})
+				if hasUpgrade && hasWS {
+					calls = append(calls, "websocket")
+				}
 				// every gate must be able to return early after handleError
 				returns := false
 				ast.Inspect(s, func(x ast.Node) bool {
